@@ -94,3 +94,56 @@ pub open spec fn eff(i: SymbolicByteCode) -> int {
     SymbolicByteCode::CaptureIndex(_) | SymbolicByteCode::PropertySlot | SymbolicByteCode::InvokeSlot => 0,
   }
 }
+
+// ---- derived quantities over an instruction vector ---------------------------------------------------------
+/// byte offset of instruction k in the encoding: the sum of the encoded lengths before it
+pub open spec fn prefix_len(code: Seq<SymbolicByteCode>, k: int) -> int
+  decreases k
+{
+  if k <= 0 { 0 } else { prefix_len(code, k - 1) + enc_len(code[k - 1]) }
+}
+
+pub proof fn lemma_prefix_len_bound(code: Seq<SymbolicByteCode>, k: int)
+  requires 0 <= k <= code.len(),
+  ensures 0 <= prefix_len(code, k) <= 5 * k,
+  decreases k,
+{
+  if k > 0 { lemma_prefix_len_bound(code, k - 1); }
+}
+
+pub proof fn lemma_prefix_len_mono(code: Seq<SymbolicByteCode>, j: int, k: int)
+  requires 0 <= j <= k <= code.len(),
+  ensures prefix_len(code, j) <= prefix_len(code, k),
+  decreases k - j,
+{
+  if j < k { lemma_prefix_len_mono(code, j, k - 1); }
+}
+
+/// linear stack simulation: 1 (the callee slot) plus the effects of the first k instructions
+pub open spec fn lin_depth(code: Seq<SymbolicByteCode>, k: int) -> int
+  decreases k
+{
+  if k <= 0 { 1 } else { lin_depth(code, k - 1) + eff(code[k - 1]) }
+}
+
+pub open spec fn count_labels(code: Seq<SymbolicByteCode>, k: int) -> int
+  decreases k
+{
+  if k <= 0 { 0 } else { count_labels(code, k - 1) + if code[k - 1] is Label { 1int } else { 0int } }
+}
+
+pub proof fn lemma_count_labels_bound(code: Seq<SymbolicByteCode>, k: int)
+  requires 0 <= k <= code.len(),
+  ensures 0 <= count_labels(code, k) <= k,
+  decreases k,
+{
+  if k > 0 { lemma_count_labels_bound(code, k - 1); }
+}
+
+/// the handler operand is the only thing the stack simulation rewrites
+pub open spec fn same_but_handler_depth(a: SymbolicByteCode, b: SymbolicByteCode) -> bool {
+  match a {
+    SymbolicByteCode::PushHandler(p) => b matches SymbolicByteCode::PushHandler(q) && p.1 == q.1,
+    _ => a == b,
+  }
+}
